@@ -19,6 +19,13 @@ for _p in ("C01", "C06", "C07", "C08", "C15", "C19", "C24", "C25"):
     CHECKS[_p] = ("eng_core", "model_checking", _CORE_ASSUME)
 
 
+CHECKS["C17"] = ("eng_lock", "model_checking",
+                 ["TLC and the community modules are correct",
+                  "flock() semantics of the kernel (locks belong to the open file description; two handles in one process conflict like two processes); a cross-process probe is sampled",
+                  "the harness's independent probe (fresh descriptor, LOCK_NB) observes the lock table faithfully",
+                  "small-scope hypothesis for the exhaustive part: 2 processes, <= 3 commits"])
+
+
 def run(prop, tier, replay=None):
     modname, level, assumptions = CHECKS[prop]
     mod = importlib.import_module(modname)
